@@ -854,6 +854,7 @@ def neighbours(rng, templates, members, table, const_types):
 def check_u(case, M, cfg, tbl_repo, table, table_l, templates, expected, sample, tsample, R, fail, hyp_all, rng):
     from synth.syntax import UCFG, ProbUGrammar
     u = UCFG.from_CFG(cfg)
+    u.type_request = cfg.type_request      # the true request (from_CFG only guesses it): instantiation must keep it
     rows = {S: [(P, tuple(alt)) for P in u.rules[S] for alt in u.rules[S][P]] for S in u.rules}
     flat = make_tags(case["weights"], case["wseed"] + 1, {S: [P for P in u.rules[S]] for S in u.rules})
     utags = {S: {P: {tuple(alt): flat[S][P] / len(u.rules[S][P]) for alt in u.rules[S][P]} for P in u.rules[S]} for S in u.rules}
